@@ -2243,7 +2243,7 @@ def run_one_fuzz(runner, text, res, label, offending=None):
         finding = KF_BIGINT
     elif internal and last.startswith('OSError: [Errno 36] File name too long') and kf_long_name_pred(text):
         finding = KF_LONG_NAME
-    elif (internal and last.startswith('ValueError: embedded null byte')
+    elif (internal and (last.startswith('ValueError: embedded null byte') or last.strip() == 'embedded null byte')
           or exc is ValueError and 'embedded null byte' in str(pr.exception)) and kf_nul_pred(text):
         finding = KF_NUL
     elif internal and last.startswith('KeyError') and 'In [cleanup]' in pr.err and kf_cleanup_pred(text, runner, HOME_FILES):
